@@ -125,9 +125,20 @@ theorem dok_save (cfg : Cfg) (i : Inst) (k : Key) (t : MRec) (raised : Bool) (hi
         · exact h
         · rw [h]; exact hk
 
-theorem dok_deleteRec (i : Inst) (k : Key) (hi : DOK i) : DOK (Model.deleteRec i k) :=
-  ⟨hi.imm, hi.disk, AL.sorted_erase _ _ hi.srt,
-   fun p hp => mem_addWaiting _ _ _ (Or.inl (hi.dirty p (AL.mem_erase k i.recs p hp)))⟩
+theorem AL.mem_erase_ne {α : Type} (k : String) (l : List (String × α)) (p : String × α)
+    (h : p ∈ AL.erase k l) : p.1 ≠ k := by
+  simp only [AL.erase, List.mem_filter, Bool.not_eq_true', beq_eq_false_iff_ne] at h
+  exact h.2
+
+theorem dok_deleteRec (i : Inst) (k : Key) (hi : DOK i) : DOK (Model.deleteRec i k) := by
+  refine ⟨hi.imm, hi.disk, AL.sorted_erase _ _ hi.srt, fun p hp => ?_⟩
+  have h1 : p.1 ∈ i.waiting := hi.dirty p (AL.mem_erase k i.recs p hp)
+  have h2 : p.1 ≠ k := AL.mem_erase_ne k i.recs p hp
+  simp only [Model.deleteRec]
+  split
+  · exact mem_addWaiting _ _ _ (Or.inl h1)
+  · simp only [List.mem_filter, bne_iff_ne, ne_eq]
+    exact ⟨h1, h2⟩
 
 theorem dok_park (i : Inst) (k : Key) (t : MRec) (hi : DOK i) : DOK (Model.park (AL.has k i.recs) i k t) := by
   unfold Model.park
